@@ -359,6 +359,19 @@ func c07Extras() []*progCase {
 		&progCase{P: &Program{Funcs: []*Func{counted, hasI}, Rules: []*Rule{{Kind: "BEGIN", Body: Blk(
 			Ex(Asg("=", V("i"), S("gi"))), Pr(CallE(V("counted"), N("2")), V("i")), Ex(CallE(V("hasI"), S("mine"))), Pr(S("global i"), V("i")), Pr(CallE(V("counted"), N("1")), V("i")))}}}},
 	)
+	// continue / break in a for-in with two variables: the second variable of the NEXT round is still the right one
+	skip := func(v string, vals ...string) Expr {
+		var e Expr = Bin("==", V(v), S(vals[0]))
+		for _, x := range vals[1:] {
+			e = Bin("||", e, Bin("==", V(v), S(x)))
+		}
+		return e
+	}
+	out = append(out,
+		&progCase{P: &Program{Rules: []*Rule{{Kind: "BEGIN", Body: Blk(&ForIn{V: "ch", W: "off", Iter: S("abcdé fgé"), Body: Blk(&If{Cond: skip("ch", "b", "é", " "), Then: Blk(&Continue{})}, Pr(V("ch"), V("off")))}, Pr(S("after"), V("ch"), V("off")))}}}},
+		&progCase{P: &Program{Rules: []*Rule{{Kind: "BEGIN", Body: Blk(&ForIn{V: "v", W: "i", Iter: Arr_(S("a"), S("b"), S("c"), S("d")), Body: Blk(&If{Cond: skip("v", "a", "c"), Then: Blk(&Continue{})}, Pr(V("v"), V("i")))}, Pr(S("after"), V("v"), V("i")))}}}},
+		&progCase{P: &Program{Rules: []*Rule{{Kind: "BEGIN", Body: Blk(&ForIn{V: "k", W: "v", Iter: &ObjLit{Keys: []string{"a", "b", "c"}, Vals: []Expr{N("1"), N("2"), N("3")}}, Body: Blk(&If{Cond: skip("k", "a"), Then: Blk(&Continue{})}, Pr(V("k"), V("v")), &If{Cond: skip("k", "b"), Then: Blk(&Break{})})}, Pr(S("after"), V("k"), V("v")))}}}},
+	)
 	// loops that run long: nothing changes at the 1 000th, 10 000th or 65 536th iteration
 	for _, n := range []string{"1001", "10003", "65537"} {
 		out = append(out,
